@@ -20,7 +20,7 @@ use crate::{
         runner::{catch, Tier, Verdict, Viol},
         stats::Stats,
     },
-    opcirc::{record_structure, run_mock, CellEdit, FaultVal, MockVerdict, Trace},
+    opcirc::{apply_late, assigned_advice_cells, record_structure, run_mock, CellEdit, FaultVal, LateEdit, MockVerdict, Trace},
     ops::{self, OpCase, OpRel},
     util::{uniform_fq, Fe},
 };
@@ -33,6 +33,9 @@ pub struct Scn {
     pub n_plans: usize,
     /// explicit plans (set by the minimiser)
     pub only: Option<Vec<Vec<CellEdit>>>,
+    /// explicit late edits (set by the minimiser)
+    #[serde(default)]
+    pub only_late: Option<Vec<LateEdit>>,
 }
 
 fn k_cache() -> &'static Mutex<HashMap<String, u32>> {
@@ -110,6 +113,35 @@ pub fn gen_plans(rng: &mut Prng, trace: &Trace, n_plans: usize) -> Vec<Vec<CellE
     plans
 }
 
+/// Late edits: cells drawn from the honest tables (n_plans == 0: every
+/// assigned cell once per fault value, capped).
+pub fn gen_lates(rng: &mut Prng, honest: Option<&midnight_proofs::dev::MockProver<Fq>>, trace: &Trace, n_plans: usize) -> Vec<LateEdit> {
+    let Some(p) = honest else { return vec![] };
+    let cells = assigned_advice_cells(p);
+    if cells.is_empty() {
+        return vec![];
+    }
+    let mut out = vec![];
+    if n_plans == 0 {
+        for (col, row, v) in &cells {
+            for val in fault_values(rng, *v, trace) {
+                out.push(LateEdit { col: *col, row: *row, val });
+            }
+        }
+        rng.shuffle(&mut out);
+        out.truncate(600);
+        return out;
+    }
+    for _ in 0..n_plans {
+        let (col, row, v) = cells[rng.usize(cells.len())];
+        let vals = fault_values(rng, v, trace);
+        if !vals.is_empty() {
+            out.push(LateEdit { col, row, val: rng.pick(&vals).clone() });
+        }
+    }
+    out
+}
+
 pub fn shrink(s: &Scn, viol: &Viol) -> Vec<Scn> {
     let mut out = vec![];
     if let Some(h) = &viol.hint {
@@ -127,8 +159,17 @@ pub fn shrink(s: &Scn, viol: &Viol) -> Vec<Scn> {
             }
         }
     }
+    if let Some(h) = &viol.hint {
+        if let Some(l) = h.get("late") {
+            if let Ok(le) = serde_json::from_value::<LateEdit>(l.clone()) {
+                if s.only_late.as_ref().map(|o| o.len()) != Some(1) {
+                    out.push(Scn { only: Some(vec![]), only_late: Some(vec![le]), ..s.clone() });
+                }
+            }
+        }
+    }
     if viol.hint.is_none() && s.only.is_none() {
-        out.push(Scn { only: Some(vec![]), ..s.clone() });
+        out.push(Scn { only: Some(vec![]), only_late: Some(vec![]), ..s.clone() });
     }
     out
 }
@@ -156,10 +197,40 @@ pub struct Outcome {
     pub verdict: Verdict,
 }
 
+/// Minimal k of an "ng." circuit: the first k at which synthesis fits.
+fn ng_min_k(case: &OpCase) -> Result<u32, String> {
+    let key = case.static_key();
+    if let Some(k) = k_cache().lock().unwrap().get(&key) {
+        return Ok(*k);
+    }
+    // (the checker needs concrete witnesses: zeros are admissible for every ng operation)
+    let mut zero_case = case.clone();
+    zero_case.ins.iter_mut().for_each(|x| *x = Fe(Fq::from(0)));
+    let c = crate::ops_ng::NgCircuit { case: zero_case, known: true };
+    for k in (case.mbl as u32 + 1).max(5)..=14 {
+        match catch(|| rayon::sim::isolated(1, || midnight_proofs::dev::MockProver::run(k, &c, vec![vec![], vec![]]).map(|_| ()))) {
+            Ok(Ok(())) => {
+                k_cache().lock().unwrap().insert(key, k);
+                return Ok(k);
+            }
+            Ok(Err(e)) => { if std::env::var("ZKSIM_DEBUG").is_ok() { eprintln!("ng k={k}: {e:?}"); } continue }
+            Err(p) => return Err(format!("configuration panicked at {}: {}", p.site(), p.msg)),
+        }
+    }
+    Err("no k <= 14 fits".into())
+}
+
 /// Executes one operation scenario. `prop` only labels the violation text.
 pub fn run(s: &Scn, st: &mut Stats, check_structure: bool) -> Verdict {
     let case = &s.case;
     DEFERRED.with(|d| *d.borrow_mut() = None);
+    if case.op.starts_with("ng.") {
+        let k = match ng_min_k(case) {
+            Ok(k) => k,
+            Err(e) => return Verdict::Harness(format!("{}: {e}", case.op)),
+        };
+        return run_generic(s, st, check_structure, k, &|known| crate::ops_ng::NgCircuit { case: case.clone(), known });
+    }
     let k = match min_k(case) {
         Ok(k) => k,
         Err(e) => {
@@ -167,15 +238,26 @@ pub fn run(s: &Scn, st: &mut Stats, check_structure: bool) -> Verdict {
             return Verdict::Harness(format!("{}: {e}", case.op));
         }
     };
-    st.inc(&format!("op.{}", case.op));
-    st.inc(&format!("config.cols{}_mbl{}", case.cols, case.mbl));
     let rel = OpRel { case: case.clone() };
     let wit = ops::witness(case);
-    let known = || MidnightCircuit::new(&rel, Value::known(vec![]), Value::known(wit.clone()), Some(case.mbl));
+    run_generic(s, st, check_structure, k, &|known| {
+        if known {
+            MidnightCircuit::new(&rel, Value::known(vec![]), Value::known(wit.clone()), Some(case.mbl))
+        } else {
+            MidnightCircuit::new(&rel, Value::unknown(), Value::unknown(), Some(case.mbl))
+        }
+    })
+}
+
+fn run_generic<C: midnight_proofs::plonk::Circuit<Fq>>(s: &Scn, st: &mut Stats, check_structure: bool, k: u32, mk: &dyn Fn(bool) -> C) -> Verdict {
+    let case = &s.case;
+    st.inc(&format!("op.{}", case.op));
+    st.inc(&format!("config.cols{}_mbl{}", case.cols, case.mbl));
+    let known = || mk(true);
 
     // (1) structure with unknown witnesses
     let d0 = if check_structure {
-        let unknown = MidnightCircuit::new(&rel, Value::unknown(), Value::unknown(), Some(case.mbl));
+        let unknown = mk(false);
         match catch(|| record_structure(k, &unknown, false)) {
             Ok(Ok(s)) => Some(s),
             Ok(Err(e)) => return Verdict::Harness(format!("{}: synthesis without witnesses failed: {e:?}", case.op)),
@@ -260,6 +342,11 @@ pub fn run(s: &Scn, st: &mut Stats, check_structure: bool) -> Verdict {
         Some(p) => p.clone(),
         None => gen_plans(&mut Prng::new(s.fault_seed, "faults"), &honest.trace, s.n_plans),
     };
+    // large circuits (foreign-curve scalar multiplications, hashes): a few plans per run
+    let mut plans = plans;
+    if k >= 14 && s.only.is_none() {
+        plans.truncate(if k >= 16 { 2 } else { 4 });
+    }
     for plan in &plans {
         let r = run_mock(k, &known(), plan, false);
         st.events += r.assignments as u64;
@@ -308,7 +395,7 @@ pub fn run(s: &Scn, st: &mut Stats, check_structure: bool) -> Verdict {
                             }
                         }
                         let mut rrng = Prng::new(s.fault_seed, &format!("repair{}", serde_json::to_string(plan).unwrap()));
-                        let made = rayon::sim::isolated(1, || crate::repair::attempt(&mut p, &protected, &mut rrng, 3));
+                        let made = rayon::sim::isolated(1, || crate::repair::attempt(&mut p, &mut protected, &mut rrng, 3));
                         if made > 0 {
                             st.fault("byzantine_repair");
                             let (v2, bp2, _) = crate::opcirc::bind_and_verify(&mut p);
@@ -358,6 +445,74 @@ pub fn run(s: &Scn, st: &mut Stats, check_structure: bool) -> Verdict {
                     st.inc("structure_comparisons");
                 }
             }
+        }
+    }
+    // (5) late edits: a value substituted on a whole copy cycle after honest witness generation
+    let lates: Vec<LateEdit> = match (&s.only_late, &s.only) {
+        (Some(l), _) => l.clone(),
+        (None, Some(_)) => vec![],
+        (None, None) => gen_lates(&mut Prng::new(s.fault_seed, "late"), honest.prover.as_ref(), &honest.trace, if s.n_plans == 0 { 0 } else if k >= 14 { 2 } else { (4 * s.n_plans).max(12) }),
+    };
+    // one honest table, restored after every edit
+    let mut lates = lates;
+    if k >= 14 && s.only_late.is_none() {
+        lates.truncate(40);
+    }
+    let mut base = if lates.is_empty() { None } else { run_mock(k, &known(), &[], false).prover };
+    let snapshot = base.as_ref().map(|p| p.advice().clone());
+    for le in &lates {
+        let Some(p) = base.as_mut() else { break };
+        let snap = snapshot.as_ref().unwrap();
+        if p.advice() != snap {
+            for (ci, col) in snap.iter().enumerate() {
+                p.advice_mut()[ci].clone_from(col);
+            }
+        }
+        let mut p = &mut *p;
+        let Some(mut touched) = apply_late(&mut p, le) else {
+            st.inc("late.skipped_constant_cycle");
+            continue;
+        };
+        st.fault("byzantine_late_cell");
+        st.nontrivial(prng::digest(format!("{}|late|{}", case.static_key(), serde_json::to_string(le).unwrap()).as_bytes()));
+        let mut rrng = Prng::new(s.fault_seed, &format!("late-repair{}", serde_json::to_string(le).unwrap()));
+        let made = rayon::sim::isolated(1, || crate::repair::attempt(&mut p, &mut touched, &mut rrng, 4));
+        if made > 0 {
+            st.fault("byzantine_repair");
+        }
+        // (touched now also lists the cells changed by the repairs)
+        if crate::repair::local_failures(p, &touched) > 0 {
+            // a gate next to the changed cells fails: the full checker would reject
+            st.inc("late.rejected");
+            st.inc("late.rejected_by_local_gate");
+            continue;
+        }
+        let (v, bp, _) = crate::opcirc::bind_and_verify(&mut p);
+        if v == MockVerdict::Accept {
+            st.inc("late.accepted");
+            if let Some(e) = unsound(case, &bp) {
+                return Verdict::Violation(
+                    Viol::new(
+                        "Unsound",
+                        format!("Unsound:{}", case.op),
+                        format!(
+                            "{} {:?} {:?}: after honest witness generation, replacing the value of advice cell (column {}, row {}) and of its copy cycle ({} cells) by {:?}{} leaves the circuit satisfied with public values {:?}: {e}",
+                            case.op,
+                            case.p,
+                            case.big,
+                            le.col,
+                            le.row,
+                            touched.len(),
+                            le.val,
+                            if made > 0 { format!(", with {made} local repair(s)") } else { String::new() },
+                            pubs(&bp)
+                        ),
+                    )
+                    .with_hint(json!({"late": le})),
+                );
+            }
+        } else {
+            st.inc("late.rejected");
         }
     }
     if let Some(m) = DEFERRED.with(|d| d.borrow_mut().take()) {
